@@ -3,6 +3,7 @@
 import errno
 import random
 
+from ..probe import staging_name
 from .. import faultengine as F
 from ..common import ncpu, split_seeds, new_scratch, rmtree, Inconclusive, clear_atexit_tmp_handlers, jsonable
 from ..gen import chunk, op_shape
@@ -111,8 +112,8 @@ def site_class(case, op):
         parts = r.split("/")
         if parts[0] == "<outside>":
             return "outside"
-        if len(parts) >= 2 and parts[1] == "tmp":
-            return parts[0] + "/tmp"
+        if len(parts) >= 2 and parts[0] in ("objects", "metadata", "refs") and staging_name(parts[1]):
+            return parts[0] + "/tmp"        # (label of the staging area, whatever the directory is called)
         if parts[0] == "refs" and len(parts) > 1:
             tail = "_delete" if parts[-1].endswith("_delete") else ""
             return "refs/" + parts[1] + tail
